@@ -473,6 +473,16 @@ class World(object):
                             bool(hs.get('ignore', False)))
         if hooks:
             opts['hooks'] = hooks
+        if wc.get('stream_objects'):
+            # a stream given as an object (embedding programs do that): the
+            # watcher's options then hold something JSON cannot encode
+            class _Sink(object):
+                def __call__(self, data):
+                    pass
+
+                def close(self):
+                    pass
+            opts['stdout_stream'] = {'stream': _Sink()}
         sconf = wc.get('stream_conf')
         if sconf:
             # a stream given by configuration (file name ...), as in an ini
